@@ -310,6 +310,9 @@ class Env:
         return W(self, t)
 
     def lookup(self, name):
+        import keyword
+        if name.endswith('_') and keyword.iskeyword(name[:-1]) and name[:-1] in self.names:
+            name = name[:-1]      # C++ identifiers that are Python keywords are written with a trailing '_'
         if name in self.extra:
             return self.extra[name]
         if name in self.names:
@@ -346,16 +349,39 @@ def _bounded(kind, f, n=1):
     return z3.ForAll(vs, body) if kind == 'A' else z3.Exists(vs, body)
 
 
+TDIV = z3.Function('tdiv', z3.IntSort(), z3.IntSort(), z3.IntSort())
+DIV_INSTANCES = []     # (a, b) pairs whose defining facts the executor adds to the path hypotheses
+
+
+def div_facts(a, b):
+    """defining facts of C's truncating division for one (a, b): a == b*q + r, |r| < |b|, sign(r) = sign(a)"""
+    q = TDIV(a, b)
+    r = a - b * q
+    ab = z3.If(b >= 0, b, -b)
+    return z3.Implies(b != 0, z3.And(z3.If(a >= 0, z3.And(r >= 0, r < ab), z3.And(r <= 0, -r < ab)),
+                                     z3.Implies(z3.And(a >= 0, b > 0), z3.And(q >= 0, q <= a)),
+                                     z3.Implies(z3.And(a >= 0, b > 0, a < b), q == 0)))
+
+
 def tdiv(a, b):
-    """C truncating division over mathematical integers"""
+    """C truncating division over mathematical integers. Constant positive divisors use z3's linear
+    division; symbolic divisors use the function symbol TDIV with its defining facts added per instance
+    (keeps z3 out of its non-linear division procedure)."""
     if isinstance(a, int):
         a = z3.IntVal(a)
     if isinstance(b, int):
         b = z3.IntVal(b)
     sa, sb = z3.simplify(a), z3.simplify(b)
     if z3.is_int_value(sb) and sb.as_long() > 0:
+        if z3.is_int_value(sa):
+            x, y = sa.as_long(), sb.as_long()
+            return z3.IntVal(abs(x) // y * (1 if x >= 0 else -1))
         return z3.If(a >= 0, a / b, -((-a) / b))
-    return z3.If(a >= 0, z3.If(b > 0, a / b, -(a / (-b))), z3.If(b > 0, -((-a) / b), (-a) / (-b)))
+    if z3.is_int_value(sb) and sb.as_long() < 0:
+        return -tdiv(a, -b)
+    if '!q' not in str(a) and '!q' not in str(b):
+        DIV_INSTANCES.append((a, b))
+    return TDIV(a, b)
 
 
 def tmod(a, b):
